@@ -343,6 +343,34 @@ func runSess(cfg *config) {
 		d.exec("CREATE DATABASE \"" + strings.Repeat("m", 255) + "\"")
 		d.exec("SHOW DATABASES")
 	}, nil)
+	// scripted: names that ARE one plain directory name, though not ones a program would pick for its
+	// own scratch files: each is a database like any other, before and after the others are created
+	run(func(d *sdrv, r *hx.Rng) {
+		odd := []string{"\".tmp\"", "\"tmp\"", "\".new\"", "\"a.b\"", "\".wal\"", "\"x y\"", "\"-\"", "\"tbl\"", "\"...\""}
+		for i := len(odd) - 1; i > 0; i-- {
+			j := r.Intn(i + 1)
+			odd[i], odd[j] = odd[j], odd[i]
+		}
+		odd = odd[:5]
+		for i, n := range odd {
+			d.exec("CREATE DATABASE " + n)
+			d.exec("USE " + n)
+			d.exec("CREATE TABLE t1 (a int, b varchar(255))")
+			d.exec(fmt.Sprintf("INSERT INTO t1 VALUES (%d, 'in %d')", i, i))
+			d.exec("SHOW DATABASES")
+		}
+		d.exec("CREATE DATABASE later")
+		d.exec("CREATE DATABASE " + odd[0])
+		d.exec("SHOW DATABASES")
+		for i, n := range odd {
+			d.exec("USE " + n)
+			d.exec(fmt.Sprintf("INSERT INTO t1 VALUES (%d, 'again')", 10+i))
+		}
+		d.restart()
+		d.exec("SHOW DATABASES")
+		d.exec("CREATE DATABASE afterrestart")
+		d.exec("SHOW DATABASES")
+	}, cfg.rng.Fork())
 	n := 6 * cfg.scale
 	for i := 0; i < n; i++ {
 		run(func(d *sdrv, r *hx.Rng) {
